@@ -1,5 +1,5 @@
 SPECIFICATION Spec
 CONSTRAINT TrackL
-INVARIANTS NeverAborts AfterDump CrashSafe NoStrayFiles NotAccepted
+INVARIANTS NeverAborts AfterDump CrashSafe NoStrayFiles
 POSTCONDITION PrintMaxL
 CHECK_DEADLOCK FALSE
